@@ -9,6 +9,7 @@ macro expansions: the outermost use.)  Together with `getErrPos_correct` (positi
 "messages cite the line that produced the instruction".
 -/
 import Emu8086.Props.C08
+import Emu8086.Props.C16
 
 namespace Emu8086.Props.C16Map
 open Emu8086 Emu8086.Asm Emu8086.Props.C08
@@ -172,6 +173,20 @@ theorem emitted_in_source_order (items : List Item) : ∀ (s s' : St), Inv s →
       obtain ⟨hc, hm⟩ := ih s1 s' hinv1 h
       rw [hc, hm, hc1, hm1]
       cases hr : Item.record it <;> simp [List.filterMap_cons, hr]
+
+/-- **The line a message cites for an emitted instruction is the line that contains the item's
+    position**: the source map entry of the instruction emitted by item j is the item's position
+    (`smap_index`), and the driver's look-up of a position returns the 1-based number of the first line
+    break after it with bounds enclosing it (`C16.getErrPos_correct`) — for every item list, every
+    sorted newline table with a line break after the position. -/
+theorem message_cites_item_line (items : List Item) (s s' : St) (hinv : Inv s) (hrun : runItems items s = .ok (⟨⟩, s'))
+    (j : Nat) (it : Item) (line : String) (pos : Nat) (hj : items[j]? = some it) (hrec : Item.record it = some (line, pos))
+    (nl : List Nat) (hs : nl.Pairwise (· < ·)) (hex : ∃ w ∈ nl, w > pos) (hnn : pos ∉ nl) :
+    ∃ k v st, s'.smap[s.code.size + ((items.take j).map Item.emits).sum]? = some pos
+      ∧ Driver.getErrPos nl pos = some (k + 1, st, v) ∧ nl[k]? = some v ∧ st ≤ pos ∧ pos < v := by
+  obtain ⟨_, _, hrec'⟩ := smap_index items s s' hinv hrun
+  obtain ⟨k, v, st, h1, h2, h3, h4, _, _⟩ := Emu8086.Props.C16.getErrPos_correct nl hs pos hex hnn
+  exact ⟨k, v, st, (hrec' j it line pos hj hrec).1, h1, h2, h3, h4⟩
 
 /-- non-vacuity: a start state of the assembler satisfies the invariant -/
 example : Inv ({} : St) := ⟨rfl, rfl⟩
